@@ -33,6 +33,10 @@ def gen_cip(rng):
         return ('writef', ('sym', 'T', rng.choice([None, 0, 1])), 196, n, 0, [('i', rng.randrange(-50, 50)) for _ in range(n)])
     if k < 0.57:
         return ('write', ('sym', 'S', 1), rng.choice([195, 195, 196]), 2, [('i', rng.randrange(-9, 9)), ('i', 3)])
+    if k < 0.585:
+        # a write that declares fewer elements than it carries values (refused: the declared count and the data disagree)
+        return rng.choice([('writef', ('sym', 'T', 1), 196, 1, 0, [('i', 0x1111), ('i', 0x2222), ('i', 0x3333)]),
+                           ('write', ('sym', 'S', 0), 195, 1, [('i', 0x111), ('i', 0x222)]), ('writef', ('sym', 'TA', None), 195, 1, 0, [('i', 7), ('i', 8)])])
     if k < 0.62:
         # cross-type writes whose first values fit the tag and a later one does not (refused as a whole), or that all fit
         if rng.random() < 0.5:
